@@ -1,6 +1,11 @@
 package gormx
 
 import (
+	"context"
+	"database/sql"
+	"fmt"
+	"io"
+
 	"gorm.io/gorm"
 
 	symx "github.com/pinealctx/neptune/zzsymx"
@@ -53,15 +58,30 @@ func VerifH_Transact() {
 	behave := make([]int, n)
 	errs := make([]error, n)
 	fns := make([]GormProcFn, n)
+	drawn := make([]bool, n)
 	for i := 0; i < n; i++ {
 		i := i
-		behave[i] = symx.Concrete(symx.Int("behave"), 0, 4) // 0 ok, 1 error, 2 panic(error), 3 runtime panic (nil map write), 4 panic(string)
-		errs[i] = symx.NewError("step failed")
 		fns[i] = func(t *gorm.DB) error {
 			log = append(log, verifEvStep0+i)
 			symx.Assert(t == txn, "step receives the transaction handle")
+			symx.Assert(!drawn[i], "a step runs at most once")
+			drawn[i] = true
+			// the step's behaviour is drawn when it runs: steps that never run cost no paths
+			behave[i] = symx.Concrete(symx.Int("behave"), 0, 5) // 0 ok, 1 error, 2 panic(error), 3 runtime panic (nil map write), 4 panic(string), 5 a well-known error value
+			errs[i] = symx.NewError("step failed")
+			if behave[i] == 5 {
+				// the step fails with an error a driver, a context or gorm itself would hand it (possibly wrapped):
+				// the transaction is still open and must be rolled back whatever the error says
+				known := []error{context.Canceled, context.DeadlineExceeded, sql.ErrTxDone, sql.ErrConnDone, gorm.ErrInvalidTransaction, io.EOF, gorm.ErrRecordNotFound}
+				e := known[symx.Concrete(symx.Int("knownError"), 0, len(known)-1)]
+				symx.Assert(e != nil, "sentinel errors are initialised")
+				if symx.Bool("wrapped") {
+					e = fmt.Errorf("step: %w", e)
+				}
+				errs[i] = e
+			}
 			switch behave[i] {
-			case 1:
+			case 1, 5:
 				return errs[i]
 			case 2:
 				panic(errs[i])
@@ -127,7 +147,7 @@ func VerifH_Transact() {
 	} else {
 		symx.Assert(count(verifEvRollback) == 1, "a step failed: rolled back")
 		symx.Assert(err != nil, "a failed transaction never returns nil")
-		if behave[firstBad] == 1 {
+		if behave[firstBad] == 1 || behave[firstBad] == 5 {
 			symx.Assert(err == errs[firstBad], "the first failing step's error is returned")
 		}
 		symx.Reach("rolled-back")
